@@ -491,6 +491,14 @@ package checkers
 //@   astvalid
 //@   requires c != nil && ctxOK(c.ctx)
 //@   call (*dupSubExprChecker).warn requires @claim-operands-are-the-same-value arg1 == expr && sideEffectFree(c.ctx.TypesInfo, expr) && astEq(expr.X, expr.Y)
+//@   call (*dupSubExprChecker).warn requires @operand-was-searched-for-literals-that-make-new-values $scanned(payload(expr.X)) && !$scanFound(payload(expr.X))
+
+// composite and function literals yield a distinct value per evaluation: `&T{} == &T{}` is not a duplicated operand
+//@ func (*dupSubExprChecker).makesNewValue
+//@   prop C12
+//@   requires c != nil
+//@   assigns nothing
+//@   ensures @scan-of-this-operand $scanned(payload(expr)) && $scanFound(payload(expr)) == result
 
 // caseOrder: a case is reported as unreachable only when its type implements the interface of a case listed before it,
 // and never for `case nil`
@@ -597,7 +605,14 @@ package checkers
 //@   nosafety node shapes are the subject of the C01 sweep
 //@   pure
 //@   requires c != nil && ctxOK(c.ctx)
-//@   ensures @float-operand-detected result <==> (typeIs(n, "*ast.BinaryExpr") && (hasFloatProp(typeUnderlying(typeOfSpec(c.ctx, cast(n, "*ast.BinaryExpr").X))) || hasFloatProp(typeUnderlying(typeOfSpec(c.ctx, cast(n, "*ast.BinaryExpr").Y)))))
+//@   ensures @float-operand-detected result <==> (typeIs(n, "*ast.BinaryExpr") && (typeIs(typeOfSpec(c.ctx, cast(n, "*ast.BinaryExpr").X), "*types.TypeParam") || hasFloatProp(typeUnderlying(typeOfSpec(c.ctx, cast(n, "*ast.BinaryExpr").X))) || typeIs(typeOfSpec(c.ctx, cast(n, "*ast.BinaryExpr").Y), "*types.TypeParam") || hasFloatProp(typeUnderlying(typeOfSpec(c.ctx, cast(n, "*ast.BinaryExpr").Y)))))
+
+// a type parameter may be instantiated with a float type: it counts as one (its type set is not inspected)
+//@ func (*boolExprSimplifyChecker).maybeFloat
+//@   prop C10
+//@   pure
+//@   requires typ != nil
+//@   ensures @type-parameters-count-as-float result <==> (typeIs(typ, "*types.TypeParam") || hasFloatProp(typeUnderlying(typ)))
 
 //@ func (*boolExprSimplifyChecker).VisitExpr
 //@   prop C10
